@@ -6,7 +6,7 @@ from .c04 import CONFIGS_QUICK, ALPHABET, ALPHABET_QUICK
 
 PROP = "C10"
 
-PLANS_QUICK = [["answer"], ["close", "answer", "close"], ["newloop", "answer"], ["peer_eof", "answer"]]
+PLANS_QUICK = [["answer"], ["close", "answer", "close"], ["newloop", "answer"], ["peer_eof", "answer"], ["newloop_keep", "answer"]]
 PLANS_THOROUGH = PLANS_QUICK + [["answer", "answer", "close"], ["silent", "answer"], ["close", "newloop", "answer", "close"],
                                 ["answer", "peer_eof", "answer", "peer_eof"]]
 
